@@ -16,7 +16,7 @@ from ropt.transforms import OptModelTransforms, VariableScaler
 ID = "C10"
 LEVEL = "exploration"
 RULE = (
-    "Hypothesis: n in 1..4, R in 1..3, P in 1..4; x inside the bounds; finite / half-infinite / infinite bounds; "
+    "Hypothesis: n in 1..4, R in 1..3, P in 1..4; x inside the bounds (also a rounding error away from a bound); finite / half-infinite / infinite bounds; "
     "per-variable magnitudes, ABSOLUTE or RELATIVE (fraction of the bound range) per variable, boundary type NONE / "
     "TRUNCATE_BOTH / MIRROR_BOTH per variable; samples injected through a design sampler, from small steps to "
     "overshoots of ~50 bound widths; 1-3 samplers with a per-variable assignment (unused samplers, variables without "
@@ -70,15 +70,36 @@ def run_case(case: dict[str, Any]) -> dict[str, Any]:  # noqa: C901, PLR0912
     return {"left": left}
 
 
+def moved_point(case: dict[str, Any]) -> np.ndarray:
+    """A point next to x (relative distance 4e-6 resp. absolute 1e-9), moved towards the interior of the bounds."""
+    x = np.array(case["x"], dtype=np.float64)
+    lb, ub = np.array(case["lb"], dtype=np.float64), np.array(case["ub"], dtype=np.float64)
+    delta = 4e-6 * np.abs(x) + 1e-9 if case["split"] == "near" else np.full(x.shape, 0.125)
+    up = np.where(x + delta <= ub, x + delta, x - delta)
+    return np.where((up >= lb) & (up <= ub), up, x)
+
+
 def _one_evaluation(case: dict[str, Any], ens: Any, ev: Any, transforms: Any, x_opt: np.ndarray, samples: np.ndarray,  # noqa: ANN401, C901, PLR0912, PLR0913
                     scale: np.ndarray, evaluation: int) -> bool:
     n, r_n, p_n = case["n"], case["R"], case["P"]
-    fres, gres = ens.calculate(x_opt, compute_functions=True, compute_gradients=True)
-    received = ev.calls[evaluation]["variables"][r_n:].reshape(r_n, p_n, n)
+    x = np.array(case["x"], dtype=np.float64)
+    if case.get("split"):  # functions at x, then a gradient-only request at x itself / a point next to x / a distant point
+        ens.calculate(x_opt, compute_functions=True, compute_gradients=False)
+        if case["split"] != "same":
+            x = moved_point(case)
+        x_req = x if transforms is None else transforms.variables.to_optimizer(x)
+        if case["split"] == "same":
+            x_req = x_opt
+        results = ens.calculate(x_req, compute_functions=False, compute_gradients=True)
+        fres, gres = None, results[-1]
+        last = ev.calls[-1]
+        received = last["variables"][last["perturbations"] >= 0].reshape(r_n, p_n, n)
+    else:
+        fres, gres = ens.calculate(x_opt, compute_functions=True, compute_gradients=True)
+        received = ev.calls[-1]["variables"][r_n:].reshape(r_n, p_n, n)
     reported = np.asarray(gres.evaluations.perturbed_variables)
     if transforms is not None:
         reported = transforms.variables.from_optimizer(reported)
-    x = np.array(case["x"], dtype=np.float64)
     lb, ub = np.array(case["lb"], dtype=np.float64), np.array(case["ub"], dtype=np.float64)
     mags = np.array(case["magnitudes"], dtype=np.float64)
     m = np.where(np.array(case["types"]) == 2, mags * (ub - lb), mags)  # noqa: PLR2004
@@ -141,6 +162,9 @@ def hypothesis_shard(item: dict[str, Any]) -> Collector:
                 xv = lo + width - frac * 2
             else:
                 xv = frac
+            if kind == "finite" and draw(st.integers(0, 5)) == 0:  # a rounding error inside a bound
+                tiny = draw(st.sampled_from([5e-11, 3e-12, 4e-15]))
+                xv = lo + tiny if draw(st.booleans()) else lo + width - tiny
             lb.append(lo_v); ub.append(hi_v); x.append(float(xv))  # noqa: E702
             rel = kind == "finite" and draw(st.booleans())
             types.append(2 if rel else 1)
@@ -155,7 +179,7 @@ def hypothesis_shard(item: dict[str, Any]) -> Collector:
             assign = [draw(st.integers(-1, s_n - 1)) for _ in range(n)]
             if all(a < 0 for a in assign):
                 assign[0] = s_n - 1
-        return {"S": s_n, "assign": assign, "nocopy": draw(st.booleans()), "n": n, "R": r_n, "P": p_n, "x": x, "lb": lb, "ub": ub, "types": types, "magnitudes": mags,
+        return {"split": draw(st.sampled_from([None, None, "same", "near", "far"])), "S": s_n, "assign": assign, "nocopy": draw(st.booleans()), "n": n, "R": r_n, "P": p_n, "x": x, "lb": lb, "ub": ub, "types": types, "magnitudes": mags,
                 "boundary": [draw(st.integers(1, 3)) for _ in range(n)], "samples": samples,
                 "scales": [draw(st.sampled_from([0.5, 2.0, 10.0, 3.0])) for _ in range(n)] if scaled else None,
                 "offsets": [draw(st.sampled_from([0.0, 1.0, -2.5])) for _ in range(n)] if scaled else None}
@@ -165,7 +189,7 @@ def hypothesis_shard(item: dict[str, Any]) -> Collector:
         col.case(case, nontrivial=info["left"], classes=(
             "left-bounds" if info["left"] else "stayed-inside", "scaled" if case["scales"] else "unscaled",
             f"samplers={case['S']}", "unused-sampler" if case["assign"] and len(set(a for a in case["assign"] if a >= 0)) < case["S"] else "all-samplers-used",
-            "sampler-keeps-array" if case["nocopy"] else "fresh-arrays",
+            "sampler-keeps-array" if case["nocopy"] else "fresh-arrays", f"request={case['split'] or 'combined'}",
             *(f"boundary={b}" for b in sorted(set(case["boundary"]))), "relative" if 2 in case["types"] else "absolute-only"))  # noqa: PLR2004
 
     run_hypothesis(col, cases(), body, seed=item["seed"], max_examples=item["examples"])
